@@ -117,3 +117,24 @@ Qed.
 
 Lemma combine_perm l l' : Permutation l l' -> combine_outcomes l = combine_outcomes l'.
 Proof. intros P. unfold combine_outcomes. now rewrite (existsb_perm _ _ _ P), (existsb_perm is_failed_outcome _ _ P). Qed.
+
+(* ---- configuration plumbing: the storage of the sending queue survives the deprecated batcher option ---- *)
+Lemma legacy_batcher_keeps_queue_config mi nc q b :
+  q_enabled q = true ->
+  let r := newQueueBatchConfig mi nc q b in
+  q_enabled r = true /\ q_storage r = q_storage q /\ q_size r = q_size q /\ q_block r = q_block q /\
+  q_sizer r = q_sizer q /\ q_wait r = q_wait q /\ q_consumers r = q_consumers q /\
+  (b_enabled b = true -> q_batch r = Some (b_flush b, b_min b, b_max b)) /\
+  (b_enabled b = false -> r = q).
+Proof.
+  intros He. unfold newQueueBatchConfig. destruct (b_enabled b); cbn [negb]; rewrite ?He; cbn;
+    repeat split; auto; discriminate.
+Qed.
+
+Lemma configured_storage_gives_persistent_queue mi nc q b sg ow s :
+  q_enabled q = true -> q_storage q = Some s ->
+  exists consumers, queue_of sg ow (newQueueBatchConfig mi nc q b) = QPersistent (q_size q) (q_block q) s sg ow consumers.
+Proof.
+  intros He Hs. destruct (legacy_batcher_keeps_queue_config mi nc q b He) as (_ & E1 & E2 & E3 & _).
+  unfold queue_of. rewrite E1, Hs, E2, E3. eauto.
+Qed.
